@@ -564,7 +564,8 @@ def run_instance(scen, params, repo=None):
     q1 = P.STATS
     return {'scenario': scen.name, 'prop': scen.prop, 'func': scen.func, 'params': params, 'paths': paths,
             'obligations': list(agg.values()), 'wall_s': time.time() - t0,
-            'queries': q1['queries'] - q0['queries'], 'solver_s': q1['solver_s'] - q0['solver_s'], 'notes': samples[:5]}
+            'queries': q1['queries'] - q0['queries'], 'solver_s': q1['solver_s'] - q0['solver_s'], 'notes': samples[:5],
+            'cvc5_queries': q1.get('cvc5', 0) - q0.get('cvc5', 0)}
 
 
 def _describe_value(v):
